@@ -94,7 +94,8 @@ def case(draw):
         t = draw(nested_state())
     else:
         t = {"kind": "full", "state": draw(FP.project_state(compliant_bias=draw(st.booleans()), max_files=10, git=False, expr_depth=2))}
-    return {"tree": t, "perm_seeds": draw(st.lists(st.integers(0, 10**6), min_size=2, max_size=2, unique=True)),
+    return {"tree": t, "rootname": draw(st.sampled_from(["proj", "proj", "proj", "subprojects", "LICENSES"])),
+            "perm_seeds": draw(st.lists(st.integers(0, 10**6), min_size=2, max_size=2, unique=True)),
             "hashseeds": draw(st.lists(st.integers(1, 4000), min_size=3, max_size=3, unique=True))}
 
 
@@ -184,7 +185,8 @@ def norm_spdx(out):
 
 def check(ctx, c):
     base = ctx.fresh_dir()
-    root = base / "proj"
+    rootname = c.get("rootname", "proj")
+    root = base / rootname
     root.mkdir()
     try:
         t = c["tree"]
@@ -228,8 +230,8 @@ def check(ctx, c):
                     record(f"perm{n}-pool", cli.run(["lint", "--json"], root), cli.run(spdx_args, root), root)
         # cwd / --root spellings (serial)
         sub = root / "sub"
-        for name, cwd, pre in (("sub-dotdot", sub, ["--root", ".."]), ("outside-abs", base, ["--root", str(root)]), ("outside-rel", base, ["--root", "proj"]),
-                               ("outside-nonnorm", base, ["--root", "proj/../proj/."]), ("root-dot", root, ["--root", "."])):
+        for name, cwd, pre in (("sub-dotdot", sub, ["--root", ".."]), ("outside-abs", base, ["--root", str(root)]), ("outside-rel", base, ["--root", rootname]),
+                               ("outside-nonnorm", base, ["--root", f"{rootname}/../{rootname}/."]), ("root-dot", root, ["--root", "."])):
             record(name, cli.run([*pre, "--no-multiprocessing", "lint", "--json"], cwd), cli.run([*pre, "--no-multiprocessing", *spdx_args], cwd), cwd)
         # hash seeds: fresh interpreters
         for hs in c["hashseeds"]:
@@ -240,6 +242,16 @@ def check(ctx, c):
                   sample={"kind": t["kind"], "files": sorted(t["files"])[:10] if t["kind"] == "nested" else [f["path"] for f in t["state"]["files"]], "variants": sorted(results)})
         ctx.extra["variant_runs"] = ctx.extra.get("variant_runs", 0) + 2 * len(results)
         ref = results["serial"]
+        if rootname == "subprojects":
+            # recorded finding: with a root directory that is itself called 'subprojects', spelling the root as '.' or '..'
+            # hides that name from the Meson rule.  Accepted only if that spelling is the ONLY thing that matters:
+            # each of the two groups of variants must agree internally.
+            group_b = {"root-dot", "sub-dotdot"}
+            a = [v for k, v in results.items() if k not in group_b]
+            b = [v for k, v in results.items() if k in group_b]
+            if all(x == a[0] for x in a) and all(x == b[0] for x in b) and a[0] != b[0]:
+                ctx.fail(c, "root directory named 'subprojects': results with --root . / --root .. differ from those with any other root spelling", "root-dir-named-subprojects")
+                return
         for name, got in results.items():
             for part, label in ((0, "lint --json"), (1, "spdx"), (2, "lint exit status")):
                 if got[part] != ref[part]:
